@@ -501,6 +501,10 @@ def c17(tier):
         for wd in (0, 1):
             j = al("disk%s_r%d" % ("dist" if wd else "", r), ["-DDISK", "-DRES=%d" % r] + (["-DWITHDIST"] if wd else []), unwind=max(r + 2, 4), us=DL, est=200 + 200 * r, mem="M", tier=t, timeout=3000, bound="every cell of res %d, k=1, every failure schedule" % r)
             js += with_witness(j, tier=t) if (r == 0 and wd == 0) else [j]
+    for r in (0, 1, 2):
+        t = "quick" if r <= 1 else "thorough"
+        j = al("diskany_r%d" % r, ["-DDISKANY", "-DRES=%d" % r], unwind=max(r + 2, 4), us=DL, est=200 + 100 * r, mem="M", tier=t, timeout=3000, witness_expect=["failure path", "error path"], bound="gridDisk k=1 on ANY 64-bit origin word with resolution field %d (invalid cells included), every failure schedule" % r)
+        js += with_witness(j, tier=t) if r == 1 else [j]
     PS = {"h3Index": ["cellToLatLng", "cellToBoundary", "latLngToCell"], "polyfill": ["cellToBBox"], "polygon": ["pointInsidePolygon", "cellBoundaryInsidePolygon", "cellBoundaryCrossesPolygon"]}
     PL = {"iterStepPolygonCompact.0": 5, "nextCell.0": 4, "polygonToCellsExperimental.0": 4, "maxPolygonToCellsSizeExperimental.0": 4, "maxPolygonToCellsSizeExperimental.1": 5, "bboxesFromGeoPolygon.0": 3, "bboxFromGeoLoop.0": 5, "iterStepChild.0": 5, "harness.0": 4, "setH3Index.0": 4}
     for nh in (0, 1):
@@ -647,7 +651,7 @@ KNOWN_STATICS = ["MAX_EDGE_LENGTH_RADS", "NORTH_POLE_CELLS", "SOUTH_POLE_CELLS",
 
 @prop("C18",
       functions=["every library function (goto symbol table and goto instructions of all 19 units)", "cellToBBox", "baseCellNumToCell", "polygonToCellsExperimental", "iterStepPolygonCompact", "describeH3Error"],
-      bounds="symbol scan: whole library. Frame jobs: cellToBBox on any 64-bit word; polygonToCellsExperimental on a triangle, res <= 1, any flags, <= 3 geometry evaluations, geometry over-approximated; describeH3Error on any int",
+      bounds="symbol scan: whole library. Frame jobs: cellToBBox and baseCellNumToCell on any 64-bit word / int; describeH3Error on any int (a frame job through polygonToCellsExperimental exhausted 18 GB and was removed)",
       outside="the step from 'no library-owned object is ever written' to 'all interleavings equal a sequential run' is an argument (no shared writable state => no data race, results depend only on arguments), not a query; libc's own thread safety is trusted; writes through pointers to the known statics are decided only for the calls listed",
       assumptions=["S-GEO stubs in the polygon frame job"],
       stubs=["cellToLatLng, cellToBoundary, latLngToCell, polygon predicates, cos (frame job)"])
@@ -656,8 +660,6 @@ def c18(tier):
     js.append(J("symscan", "C18_frame.c", symscan=True, known_statics=KNOWN_STATICS, est=5, bound="all static-lifetime objects and all assignments of the library's goto program"))
     PS = {"h3Index": ["cellToLatLng", "cellToBoundary", "latLngToCell"], "polygon": ["pointInsidePolygon", "cellBoundaryInsidePolygon", "cellBoundaryCrossesPolygon"]}
     js += with_witness(J("frame_bbox", "C18_frame.c", ["-DPOLYFILL"], unwind=17, us={"harness.0": 123, "harness.1": 123, "harness.2": 123, "harness.3": 123, "harness.4": 123, "harness.5": 123, "harness.6": 123, "setH3Index.0": 3}, include_units=["polyfill"], stubs=PS, est=30, mem="M", bound="cellToBBox on any word"))
-    js += [J("frame_polyfill", "C18_frame.c", ["-DPOLYFILL", "-DWITH_ITER"], unwind=5, us={"harness.0": 123, "harness.1": 123, "harness.2": 123, "harness.3": 123, "harness.4": 123, "harness.5": 123, "harness.6": 123, "setH3Index.0": 3, "iterStepPolygonCompact.0": 5, "nextCell.0": 3, "iterStepChild.0": 4, "bboxFromGeoLoop.0": 5, "bboxesFromGeoPolygon.0": 2, "polygonToCellsExperimental.0": 3},
-             include_units=["polyfill"], stubs=PS, est=200, mem="L", timeout=2400, tier="thorough", core=False, bound="polygonToCellsExperimental, triangle, res <= 1")]
     js += with_witness(J("frame_errdesc", "C18_frame.c", ["-DERRDESC"], unwind=17, include_units=["h3Index"], est=10, bound="describeH3Error on any int"))
     return js
 
